@@ -24,6 +24,7 @@ import (
 type zzEffect struct {
 	kind string // put | delete | release | allocate | reply
 	key  string
+	uid  string // pod UID handed to the pool / IPAM backend
 	rec  daemon.PodResources
 	res  []eni.NetworkResource
 	lock int
@@ -172,7 +173,7 @@ func zzService(mode string) (*networkService, *zzWorld, *zzK8s, *zzStore) {
 		return out, nil
 	})
 	zz.Override(zzMgrRelease, func(m *eni.Manager, ctx context.Context, cni *daemon.CNI, req *eni.ReleaseRequest) error {
-		w.log = append(w.log, zzEffect{kind: "release", key: cni.PodID, res: req.NetworkResources, lock: zz.LockState(&svc.RWMutex)})
+		w.log = append(w.log, zzEffect{kind: "release", key: cni.PodID, uid: cni.PodUID, res: req.NetworkResources, lock: zz.LockState(&svc.RWMutex)})
 		if !w.noReleaseFaults && zz.Bool("release.fails") {
 			return errZZAPI
 		}
